@@ -466,7 +466,7 @@ def rtu_stream_family(ctx, n, cases=None):
 
 
 def run(ctx):
-    ctx.translate(['Consts.v', 'ClientTables.v'])
+    ctx.translate(['Consts.v', 'ClientTables.v', 'SessionErrors.v', 'ErrorMaps.v'])
     models_ok = ctx.build_models(REQS + ['Spec.ClientCodecSpec'])
     ctx.prove()
     if ctx.tier == 'thorough':
